@@ -11,9 +11,9 @@ def run(ctx):
     mo.replay(ctx, 160 if quick else 4000)
     ctx.rule = ("histories of {construct with kwargs, set member to default/non-default, set non-oneof field, nested assignment, parse of "
                 "encoded random messages (0..n members), from_dict class/instance form, copy, deepcopy, pickle, observers} on messages with "
-                "several oneof groups (scalar, string, bytes, enum, message, Timestamp members); after every call the public observation "
+                "several oneof groups (scalar, string, bytes, enum, message, Timestamp members; members declared plainly and the way the plugin's pydantic flavour declares them; from_dict documents also with nulls for absent fields); after every call the public observation "
                 "(which_one_of, AttributeError on other members, members in the encoding and in to_dict) is judged; non-trivial = >= 2 ops")
-    hist.run_histories(ctx, ["TOne", "TOne", "TMix"], 1500 if quick else 30000, 14, "oneof")
+    hist.run_histories(ctx, ["TOne", "TOneP", "TMix"], 1500 if quick else 30000, 14, "oneof")
 
 
 def redrive(ev):
